@@ -136,7 +136,8 @@ def to_list(x):
     from bionumpy.encoded_array import EncodedArray, EncodedRaggedArray
     from npstructures import RaggedArray
     if isinstance(x, EncodedRaggedArray):
-        return [to_list(x.ravel().raw()[s:e]) for s, e in zip(_starts(x), _ends(x))]
+        d = x.ravel().raw()     # materialises views (and re-bases x._shape) before the offsets are read
+        return [to_list(d[s:e]) for s, e in zip(_starts(x), _ends(x))]
     if isinstance(x, EncodedArray):
         return to_list(x.raw())
     if isinstance(x, RaggedArray):
